@@ -10,7 +10,7 @@ From Coq Require Import List NArith Bool Arith Lia.
 Import ListNotations.
 From PV Require Import Regex Base AstDefs AstSpec AstImpl GenTables NodeModel Generator ClimbProofs ClimbComplete GenParen GenBinop.
 From PV Require Import LexTables ParserTables PyRepr ParserBase ParserDecl ParserMain LexerProofs TableProofs.
-From PV Require Import BinaryRefine ExprShape UnaryShape CoordProofs StreamLib RoundTrip RoundTripGen.
+From PV Require Import BinaryRefine ExprShape UnaryShape CoordProofs StreamLib RoundTrip RoundTripGen TypeName.
 Open Scope nat_scope.
 
 Inductive ex :=
@@ -26,7 +26,9 @@ Inductive ex :=
 | XCall (b: ex) (args: list ex)
 | XCond (c t f: ex)
 | XAsg (o: str) (l r: ex)
-| XComma (es: list ex).
+| XComma (es: list ex)
+| XCast (ty: list (kind * str)) (e: ex)      (* (type-name) e, the type name a run of simple type specifiers *)
+| XSizeofT (ty: list (kind * str)).         (* sizeof(type-name) *)
 
 Definition simple (e: ex) : bool := match e with XId _ | XConst _ _ _ | XIdx _ _ | XMem _ _ _ | XCall _ _ => true | _ => false end.
 Definition isasg (e: ex) : bool := match e with XAsg _ _ _ => true | _ => false end.
@@ -35,8 +37,9 @@ Definition iscomma (e: ex) : bool := match e with XComma _ => true | _ => false 
 Fixpoint size (e: ex) : nat :=
   match e with
   | XId _ | XConst _ _ _ => 1
+  | XSizeofT _ => 2
   | XBin _ l r => S (size l + size r)
-  | XUn _ x | XPre _ x | XPost _ x | XSizeof x => S (size x)
+  | XUn _ x | XPre _ x | XPost _ x | XSizeof x | XCast _ x => S (size x)
   | XIdx b i => S (size b + size i)
   | XMem b _ _ => S (size b)
   | XCall b args => S (size b + list_sum (map size args))
@@ -59,6 +62,8 @@ Fixpoint embx (e: ex) : value unit :=
   | XCond c t f => VNode C_TernaryOp [embx c; embx t; embx f] None
   | XAsg o l r => VNode C_Assignment [VStr o; embx l; embx r] None
   | XComma es => VNode C_ExprList [VList (map embx es)] None
+  | XCast ty x => VNode C_Cast [tn_emb (map snd ty); embx x] None
+  | XSizeofT ty => VNode C_UnaryOp [VStr (s2l "sizeof"); tn_emb (map snd ty)] None
   end.
 
 Lemma embx_node : forall e, exists c fs co, embx e = VNode c fs co.
@@ -78,6 +83,9 @@ Definition const_ok (k: kind) (v ty: str) : bool :=
   else if kind_in k tbl_FLOAT_CONST then match float_const_type v with Some t => str_eqb t ty | None => false end
   else kind_in k tbl_CHAR_CONST && str_eqb ty (s2l "char").
 
+(* a type name of the language: a non-empty run of simple type-specifier keywords *)
+Definition tyok (ty: list (kind * str)) : Prop := ty <> [] /\ Forall (fun kv => kind_in (fst kv) tbl_TYPE_SPEC_SIMPLE = true) ty.
+
 Fixpoint wf (e: ex) : Prop :=
   match e with
   | XId _ => True
@@ -92,6 +100,8 @@ Fixpoint wf (e: ex) : Prop :=
   | XCond c t f => wf c /\ wf t /\ wf f
   | XAsg o l r => asgop_ok o = true /\ isasg l = false /\ iscomma l = false /\ wf l /\ wf r
   | XComma es => 2 <= length es /\ (fix wl (l: list ex) : Prop := match l with [] => True | x :: r => wf x /\ wl r end) es
+  | XCast ty x => tyok ty /\ wf x
+  | XSizeofT ty => tyok ty
   end.
 Definition wfl (l: list ex) : Prop := (fix wl (l: list ex) : Prop := match l with [] => True | x :: r => wf x /\ wl r end) l.
 Lemma wfl_Forall : forall l, wfl l -> Forall wf l.
@@ -120,6 +130,8 @@ Fixpoint xt (e: ex) : list (kind * str) :=
   | XCond c t f => parkv (vx c (xt c)) ++ (K_CONDOP, s2l "?") :: parkv (vx t (xt t)) ++ (K_COLON, s2l ":") :: parkv (vx f (xt f))
   | XAsg o l r => xt l ++ (opk o, o) :: (if isasg r then parkv (xt r) else vx r (xt r))
   | XComma es => commas (map (fun a => vx a (xt a)) es)
+  | XCast ty x => (K_LPAREN, s2l "(") :: ty ++ (K_RPAREN, s2l ")") :: wrap x (xt x)
+  | XSizeofT ty => (K_SIZEOF, s2l "sizeof") :: (K_LPAREN, s2l "(") :: ty ++ [(K_RPAREN, s2l ")")]
   end.
 Definition opnd (e: ex) : list (kind * str) := wrap e (xt e).
 Definition argt (e: ex) : list (kind * str) := vx e (xt e).
@@ -130,7 +142,7 @@ Fixpoint to_gt (e: ex) : GenParen.gt ex str :=
 
 Lemma xt_bin : forall e, xt e = match e with XBin _ _ _ => kvg rp ex opnd (to_gt e) | _ => xt e end.
 Proof.
-  induction e as [a|k v ty|o l IHl r IHr|o x IHx|o x IHx|o x IHx|x IHx|b IHb i IHi|b IHb ty f|b IHb args|c IHc t IHt f IHf|o l IHl r IHr|es]; try reflexivity.
+  induction e as [a|k v ty|o l IHl r IHr|o x IHx|o x IHx|o x IHx|x IHx|b IHb i IHi|b IHb ty f|b IHb args|c IHc t IHt f IHf|o l IHl r IHr|es|ty x IHx|ty]; try reflexivity.
   cbn [xt to_gt kvg].
   assert (HL: (if keepLx o l then xt l else wrap l (xt l)) =
               (if GenParen.keepL ex str gprec rp o (to_gt l) then kvg rp ex opnd (to_gt l)
@@ -762,7 +774,7 @@ Proof.
   assert (IHl: forall l, wfl l -> list_sum (map size l) <= n -> Forall T l).
   { intros l Hwl Hs. apply Forall_forall. intros a Ha. apply IH; [pose proof (in_sum l a Ha); lia|].
     exact (proj1 (Forall_forall _ _) (wfl_Forall l Hwl) a Ha). }
-  destruct e as [a|k v ty|o l r|o x|o x|o x|x|b i|b ty fld|b args|c t f|o l r|es]; cbn [size] in Hn; cbn [wf] in Hw.
+  destruct e as [a|k v ty|o l r|o x|o x|o x|x|b i|b ty fld|b args|c t f|o l r|es|ty x|ty]; cbn [size] in Hn; cbn [wf] in Hw.
   - (* identifier *)
     apply T_of_chain; try reflexivity.
     + exists K_ID, a, []. split; [reflexivity|]. split; [reflexivity|]. split; [reflexivity|]. intros H; discriminate H.
@@ -883,6 +895,20 @@ Proof.
     unfold RoundTripX.opnd, wrap, vx. cbn [simple iscomma].
     apply paren_to_cast; [apply first_ok_parkv; exact Hf|].
     apply cond_to_expr; [apply first_ok_parkv; exact Hf|apply cast_to_cond; apply paren_to_cast; assumption].
+  - (* cast *)
+    destruct Hw as ((Hne & HF) & Hx). assert (HT: T x) by (apply IH; [lia|exact Hx]).
+    assert (HCa: CastS (xt (XCast ty x)) (embx (XCast ty x))).
+    { cbn [RoundTripX.xt embx]. apply (cast_type P ty (opnd x) (embx x) Hne HF (T_first_opnd x HT)). exact (proj1 (proj2 (proj2 HT))). }
+    apply T_of_cond; try reflexivity; [|apply cast_to_cond; exact HCa].
+    cbn [RoundTripX.xt]. destruct ty as [|[k0 v0] ty']; [congruence|]. cbn [app].
+    exists K_LPAREN, (s2l "("), ((k0, v0) :: ty' ++ (K_RPAREN, s2l ")") :: opnd x). split; [reflexivity|]. split; [reflexivity|]. split; [reflexivity|].
+    intros _. exists k0, v0, (ty' ++ (K_RPAREN, s2l ")") :: opnd x). split; [reflexivity|].
+    pose proof (Forall_inv HF) as Hk0. cbn [fst] in Hk0. clear -Hk0. destruct k0; vm_compute in Hk0; try discriminate Hk0; reflexivity.
+  - (* sizeof(type-name) *)
+    destruct Hw as (Hne & HF).
+    assert (HCa: CastS (xt (XSizeofT ty)) (embx (XSizeofT ty))) by (cbn [RoundTripX.xt embx]; apply (sizeof_type P ty Hne HF)).
+    apply T_of_cond; try reflexivity; [|apply cast_to_cond; exact HCa].
+    cbn [RoundTripX.xt]. eexists; eexists; eexists. split; [reflexivity|]. split; [reflexivity|split; [reflexivity|intros E; discriminate E]].
 Qed.
 
 (* parse . generate = id, token level: every expression of the language - with the cost of the parse:
